@@ -65,6 +65,53 @@ theorem C15_serialize_rejects_long_token (m : Msg) (h : m.token.length > 8) :
   · rfl
   · simp [h]
 
+/-- **C15 (requests are sent as they are).** `_TCPPooling.send_message` hands a request (any
+message that is not a response) to the connection unchanged: what is written is the RFC 8323
+frame of exactly that message, with all its options — No-Response (258) included — and the
+request is never dropped. -/
+theorem C15_send_request_exact (m : Msg) (hreq : ¬ (64 ≤ m.code ∧ m.code < 192)) :
+    poolSend m = sendMessage m ∧ poolSend m ≠ [] ∧
+    ∀ b, poolSend m = [.write b] → Rfc8323.Message b m ∧ serialize m = some b := by
+  have h : poolSend m = sendMessage m := by unfold poolSend; rw [if_neg hreq]
+  refine ⟨h, ?_, fun b hb => ?_⟩
+  · rw [h]; unfold sendMessage; split <;> simp
+  · rw [h] at hb
+    unfold sendMessage at hb
+    split at hb
+    · rename_i b' hb'
+      simp only [List.cons.injEq, Out.write.injEq, and_true] at hb
+      subst hb
+      exact ⟨serialize_message hb', hb'⟩
+    · simp at hb
+
+/-- **C15 (responses and No-Response).** On a response the No-Response option is aiocoap's
+internal marker taken over from the request: the response is not written at all when the bit of
+its class (2.xx: 2, 4.xx: 8, 5.xx: 16) is set in the value, and otherwise what is written is the
+RFC 8323 frame of the response without that option (everything else identical). -/
+theorem C15_send_response_no_response (m : Msg) (hresp : 64 ≤ m.code ∧ m.code < 192) :
+    ((noResponseOf m.opts).testBit (m.code / 32 - 1) = true → poolSend m = []) ∧
+    ((noResponseOf m.opts).testBit (m.code / 32 - 1) = false →
+      poolSend m = sendMessage { m with opts := m.opts.filter (fun o => o.num != 258) } ∧
+      ∀ b, poolSend m = [.write b] →
+        Rfc8323.Message b { m with opts := m.opts.filter (fun o => o.num != 258) }) := by
+  constructor
+  · intro hbit
+    unfold poolSend
+    rw [if_pos hresp, if_pos hbit]
+  · intro hbit
+    have h : poolSend m = sendMessage { m with opts := m.opts.filter (fun o => o.num != 258) } := by
+      unfold poolSend
+      rw [if_pos hresp, if_neg (by simp [hbit])]
+    refine ⟨h, fun b hb => ?_⟩
+    rw [h] at hb
+    unfold sendMessage at hb
+    split at hb
+    · rename_i b' hb'
+      simp only [List.cons.injEq, Out.write.injEq, and_true] at hb
+      subst hb
+      exact serialize_message hb'
+    · simp at hb
+
 -- =============================================================================================
 -- 2. frame round trip
 -- =============================================================================================
@@ -906,6 +953,13 @@ example : (session 1048576 [[0, 225, 0, 228, 0, 1]]).1.spool = [0, 1] ∧
     (session 1048576 [[0, 225, 0, 228], [0, 1]]).1.spool = [] ∧
     (session 1048576 [[0, 225, 0, 228, 0, 1]]).1.live =
       (session 1048576 [[0, 225, 0, 228], [0, 1]]).1.live := by decide
+/-- a GET with No-Response 26 keeps the option on the wire (option 258 = delta 247 after 11:
+0xD1 0xEA); a 2.05 with the marker 26 is dropped, with 24 it is sent without the option -/
+example : poolSend { code := 1, token := [1], opts := [⟨11, [120]⟩, ⟨258, [26]⟩], payload := [] } =
+    [.write [0x51, 1, 1, 0xB1, 120, 0xD1, 0xEA, 26]] := by decide
+example : poolSend { code := 69, token := [1], opts := [⟨258, [26]⟩], payload := [104] } = [] ∧
+    poolSend { code := 69, token := [1], opts := [⟨258, [24]⟩], payload := [104] } =
+      [.write [0x21, 69, 1, 255, 104]] := by decide
 /-- `Out.isAbortWrite` recognises the Abort frames and not the Pong or the CSM -/
 example : (Out.write (208 :: 11 :: 229 :: 255 :: txtUnknownCritical)).isAbortWrite = true ∧
     (Out.write [1, 227, 7]).isAbortWrite = false ∧
